@@ -184,13 +184,13 @@ impl Compound {
             *value *= Rational::new(10u32, 1u32).pow(state.prefix * state.power);
 
             if let Some(conversion) = name.conversion() {
-                apply_conversion(state.power, value, conversion, other.names.len() == 1)?;
+                apply_conversion(state.power, false, value, conversion, other.names.len() == 1)?;
             }
         }
 
         for (name, state) in &self.names {
             if let Some(conversion) = name.conversion() {
-                apply_conversion(-state.power, value, conversion, self.names.len() == 1)?;
+                apply_conversion(state.power, true, value, conversion, self.names.len() == 1)?;
             }
 
             *value /= Rational::new(10u32, 1u32).pow(state.prefix * state.power);
@@ -252,7 +252,7 @@ impl Compound {
             *lhs *= Rational::new(10u32, 1u32).pow(state.prefix * state.power);
 
             if let Some(conversion) = name.conversion() {
-                apply_conversion(state.power, lhs, conversion, self.names.len() == 1)?;
+                apply_conversion(state.power, false, lhs, conversion, self.names.len() == 1)?;
             }
         }
 
@@ -260,7 +260,7 @@ impl Compound {
             *rhs *= Rational::new(10u32, 1u32).pow(state.prefix * state.power);
 
             if let Some(conversion) = name.conversion() {
-                apply_conversion(state.power, rhs, conversion, other.names.len() == 1)?;
+                apply_conversion(state.power, false, rhs, conversion, other.names.len() == 1)?;
             }
         }
 
@@ -318,11 +318,9 @@ impl Compound {
                 };
 
                 if let Some(conversion) = unit.conversion() {
-                    // So this is kinda complicated, so bear with me. `n` is the
-                    // original factor modifier, which we apply to mod_power to
-                    // get the original power back. Then we multiply by `-1`
-                    // because we want to shed the multiples here.
-                    apply_conversion(-mod_power, out, conversion, names.len() == 1)?;
+                    // NB: the unit has been re-derived with `mod_power`, so
+                    // shed its multiples from the value in base units.
+                    apply_conversion(mod_power, true, out, conversion, names.len() == 1)?;
                 }
             }
 
@@ -524,41 +522,46 @@ impl fmt::Display for Compound {
     }
 }
 
-/// Apply the conversion of a unit raised to `pow`. `sole` indicates that the
-/// unit is the only unit of the quantity being converted: scales with a shifted
-/// zero point are only meaningful for such quantities.
+/// Convert a value between a unit raised to `power` and its base units:
+/// towards the base units, or away from them if `inverse` is set. `sole`
+/// indicates that the unit is the only unit of the quantity being converted:
+/// scales with a shifted zero point are only meaningful for such quantities,
+/// and only when the scale itself has power one.
 fn apply_conversion(
-    pow: i32,
+    power: i32,
+    inverse: bool,
     ratio: &mut Rational,
     conversion: Conversion,
     sole: bool,
 ) -> Result<(), CompoundError> {
     match conversion {
         Conversion::Methods(methods) => {
-            if pow.abs() != 1 || !sole {
+            if power != 1 || !sole {
                 return Err(CompoundError);
             }
 
-            for _ in pow..0 {
+            if inverse {
                 (methods.from)(ratio);
-            }
-
-            for _ in 0..pow {
+            } else {
                 (methods.to)(ratio);
             }
         }
         Conversion::Factor(fraction) => {
+            let pow = if inverse { -power } else { power };
+
             if pow != 0 {
                 *ratio *= Rational::new(fraction.numer, fraction.denom).pow(pow);
             }
         }
         Conversion::Offset(fraction) => {
-            if pow.abs() != 1 || !sole {
+            if power != 1 || !sole {
                 return Err(CompoundError);
             }
 
-            if pow != 0 {
-                *ratio += Rational::new(fraction.numer, fraction.denom) * Rational::new(pow, 1);
+            if inverse {
+                *ratio -= Rational::new(fraction.numer, fraction.denom);
+            } else {
+                *ratio += Rational::new(fraction.numer, fraction.denom);
             }
         }
     }
